@@ -41,6 +41,7 @@ from .values import (
     SInt,
     SReal,
     SStr,
+    SymListV,
     SymSet,
     Unit,
     View,
@@ -65,6 +66,7 @@ class Ghost:
         self.loop = None
         self.vc = VCV()
         self.stash = {}
+        self.abstract_memo = {}
 
     # ------------------------------------------------------------------ misc hooks used by lib
     def note_effect(self, what, *payload):
@@ -116,6 +118,56 @@ class Ghost:
         from .loopmodel import loop_call_value
 
         return loop_call_value(self, f, args, kwargs, node)
+
+    # ------------------------------------------------------------------ abstract (loop-bearing) spec functions
+    def fingerprint(self, v):
+        """syntactic identity of an argument value (sound: equal fingerprints => equal values)"""
+        r = lib.as_rope(v)
+        if r is not None:
+            parts = [type(v).__name__]
+            for s_ in r.segs:
+                if isinstance(s_, Unit):
+                    parts.append(("u", s_.b if isinstance(s_.b, int) else z3.simplify(s_.b).sexpr()))
+                else:
+                    parts.append(("v", s_.fn.name(), str(z3.simplify(zint(s_.off))), str(z3.simplify(zint(s_.n)))))
+            return tuple(parts)
+        if isinstance(v, (SInt, SBool, SReal)):
+            return ("t", z3.simplify(v.t).sexpr())
+        if isinstance(v, Opaque):
+            return ("o", z3.simplify(v.t).sexpr())
+        if isinstance(v, EnumV):
+            return ("e", v.cls.qualname, self.fingerprint(v.value))
+        if isinstance(v, tuple):
+            return ("tuple",) + tuple(self.fingerprint(x) for x in v)
+        if isinstance(v, (int, str, bool, float)) or v is None:
+            return ("c", v)
+        if isinstance(v, ObjV) and v.cls.is_dataclass and v.cls.frozen:
+            return ("dc", v.cls.qualname) + tuple(self.fingerprint(v.fields[fd.name]) for fd in v.cls.dc_fields)
+        return ("id", id(v))
+
+    def abstract_call(self, f, args, kwargs, node):
+        """a spec function that loops over symbolic data is, for its callers, an
+        uninterpreted deterministic function of its arguments: equal (fingerprinted)
+        arguments give the identical outcome, anything else an independent one"""
+        from .interp import RaiseSig
+
+        I = self.I
+        spec = I.world.abstract[f.qualname]
+        key = (f.qualname,) + tuple(self.fingerprint(a) for a in args) + tuple((k, self.fingerprint(v)) for k, v in sorted(kwargs.items()))
+        if key not in self.abstract_memo:
+            raises = list(lib.iterate(I, spec.get("raises", ()), node))
+            k = I.ctx.choose(1 + len(raises))
+            name = I.ctx.fresh_name("abs." + f.name)
+            I.ctx.register_input(name + ".outcome", lambda m, k=k: k)
+            if k == 0:
+                self.abstract_memo[key] = ("ret", I.call(spec["gen"], [self.vc, name] + list(args), {}, node))
+            else:
+                self.abstract_memo[key] = ("raise", raises[k - 1])
+            I.ctx.note("abstract", f.qualname)
+        kind, v = self.abstract_memo[key]
+        if kind == "ret":
+            return v
+        raise RaiseSig(I.instantiate(v, [], {}, node), where=I.where(node))
 
     def opaque_attr(self, obj, name, node):
         raise OutsideSubset(f"attribute {name!r} of opaque {obj.tag} at {self.I.where(node)}")
@@ -181,8 +233,8 @@ class Ghost:
         ctx.assume(z3.ForAll([j], z3.Implies(z3.And(j >= 0, j < zint(n)), body)))
         return SStr(rope)
 
-    def bytes_find(self, rope, sub, node):
-        """bytes.find(single byte): first index or -1"""
+    def bytes_find(self, rope, sub, node, last=False):
+        """bytes.find / bytes.rfind of a single byte: first / last index or -1"""
         I = self.I
         ctx = I.ctx
         if sub is None or sub.length() != 1:
@@ -191,7 +243,10 @@ class Ghost:
         n = rope.length()
         if isinstance(n, int):
             bs = ropes.units(ctx, rope, n)
-            for i, b in enumerate(bs):
+            order = list(enumerate(bs))
+            if last:
+                order.reverse()
+            for i, b in order:
                 e = (b == c) if isinstance(b, int) and isinstance(c, int) else ctx.decide(zint(b) == zint(c))
                 if e:
                     return i
@@ -201,7 +256,8 @@ class Ghost:
         if ctx.decide(r >= 0):
             ctx.assume(r < zint(n))
             ctx.assume(ropes.at_term(ctx, rope, r) == zint(c))
-            ctx.assume(z3.ForAll([j], z3.Implies(z3.And(j >= 0, j < r), ropes.at_term(ctx, rope, j) != zint(c))))
+            rng = z3.And(j > r, j < zint(n)) if last else z3.And(j >= 0, j < r)
+            ctx.assume(z3.ForAll([j], z3.Implies(rng, ropes.at_term(ctx, rope, j) != zint(c))))
             return SInt(r)
         ctx.assume(r == -1)
         ctx.assume(z3.ForAll([j], z3.Implies(z3.And(j >= 0, j < zint(n)), ropes.at_term(ctx, rope, j) != zint(c))))
@@ -438,6 +494,76 @@ class Ghost:
         if isinstance(v, SetV):
             return SetV(v.items, v.frozen)
         raise OutsideSubset(f"vc.copy of {type(v).__name__}")
+
+    def vc_sym_list(self, args, kwargs, node):
+        """vc.sym_list(name): list with an arbitrary (opaque, immutable) prefix; models the
+        accumulator of an append-only loop at an arbitrary iteration"""
+        pre = self.vc_opaque_seq([args[0], "elem"], {}, node)
+        return SymListV(pre)
+
+    def vc_list_tail(self, args, kwargs, node):
+        """vc.list_tail(l): what was appended to a vc.sym_list since its creation"""
+        l = args[0]
+        if isinstance(l, SymListV):
+            return ListV(l.items)
+        raise OutsideSubset("vc.list_tail of a value that is not a vc.sym_list")
+
+    def vc_text(self, args, kwargs, node):
+        """vc.text(name, minlen=0, maxlen=None, exclude=None): arbitrary ASCII str; `exclude`
+        is one byte value that does not occur"""
+        ctx = self.I.ctx
+        name = args[0]
+        minlen = kwargs.get("minlen", 0)
+        maxlen = kwargs.get("maxlen")
+        exclude = kwargs.get("exclude")
+        n = z3.Int(name + ".len")
+        ctx.assume(n >= zint(int_term(minlen)))
+        if maxlen is not None:
+            ctx.assume(n <= zint(int_term(maxlen)))
+        fn = z3.Function(name + ".at", z3.IntSort(), z3.IntSort())
+        j = z3.Int(name + ".j")
+        body = z3.And(fn(j) >= 0, fn(j) < 128)
+        if exclude is not None:
+            body = z3.And(body, fn(j) != exclude)
+        ctx.assume(z3.ForAll([j], body, patterns=[fn(j)]))
+        rope = SBytes((View(fn, 0, n),))
+        ctx.size_hint(n)
+
+        def ex(m, rope=rope):
+            h = ropes.model_bytes(m, rope)
+            if isinstance(h, dict):
+                raise ValueError("text too long")
+            return bytes.fromhex(h).decode("latin-1")
+
+        ctx.register_input(name, ex)
+        return SStr(rope)
+
+    def vc_seq(self, args, kwargs, node):
+        """vc.seq(name, gen): tuple of arbitrary length whose element i is gen(vc, name[i])"""
+        ctx = self.I.ctx
+        name, gen = args[0], args[1]
+        n = z3.Int(name + ".len")
+        ctx.assume(n >= 0)
+        ctx.size_hint(n)
+        memo = {}
+        terms = {}
+        I = self.I
+
+        def at(i):
+            key = str(z3.simplify(zint(i))) if not isinstance(i, int) else str(i)
+            if key not in memo:
+                terms[key] = zint(i)
+                memo[key] = I.call(gen, [self.vc, f"{name}[{key}]"], {}, node)
+            return memo[key]
+
+        def ex(m):
+            return {
+                "len": m.eval(n, model_completion=True).as_long(),
+                "indices": {k: m.eval(t, model_completion=True).as_long() for k, t in terms.items()},
+            }
+
+        ctx.register_input(name, ex)
+        return SeqV(n, at, "tuple", ident=name)
 
     def vc_intset(self, args, kwargs, node):
         """vc.intset(name): arbitrary frozenset of ints (membership symbolic)"""
